@@ -766,6 +766,7 @@ type vxC03SessCase struct {
 	CfgCQL    string `json:"cfg_cql,omitempty"`     // ClusterConfig.CQLVersion (STARTUP's CQL_VERSION)
 	ConsVia   int    `json:"cons_via,omitempty"`    // 0 on the statement, 1 ClusterConfig.Consistency, 2 Session.SetConsistency
 	Twice     bool   `json:"twice,omitempty"`       // the same Query / Batch object is executed a second time: the same request must go out again
+	Layout    int    `json:"layout,omitempty"`      // how the prepared statement's text is laid out: 0 one line, 1 keyword followed by a newline, 2 tabs, 3 leading white space and lower case, 4 mixed case with a trailing newline
 }
 
 func vxDrawBinds(t *rapid.T, proto int, min int) []vxC03Bind {
@@ -813,7 +814,7 @@ func vxBindArgs(binds []vxC03Bind, named bool) ([]interface{}, []cqlspec.ReqValu
 func TestVxC03Session(t *testing.T) {
 	vx.Check(t, vx.Prop{
 		ID: "C03", Part: "TestVxC03Session",
-		Rule: "a real session (protocol 1..5, snappy or none, keyspace or none) executes one request through the public API: an unprepared query, a prepared query with 1..4 bound values (int / text / nil / UnsetValue(v4+), optionally NamedValue(v3+)) or a batch (type, 0..3 entries with 0..4 values); options drawn: consistency (on the statement, ClusterConfig.Consistency or Session.SetConsistency), page size (set / default / 0), paging state, serial consistency (statement or ClusterConfig.SerialConsistency), timestamp (default now / explicit / disabled, ClusterConfig.DefaultTimestamp on or off), ClusterConfig.CQLVersion (STARTUP), tracing, custom payload (v4+), NoSkipMetadata; in a quarter of the cases the same Query / Batch object is executed twice; every frame the node received is decoded by lib/cqlspec and compared with what was asked; non-trivial = >= 2 options or a null/unset/named value; distinct by the case",
+		Rule: "a real session (protocol 1..5, snappy or none, keyspace or none) executes one request through the public API: an unprepared query, a prepared query (statement text on one line, with newlines or tabs after the keywords, with leading white space, in lower or mixed case) with 1..4 bound values (int / text / nil / UnsetValue(v4+), optionally NamedValue(v3+)) or a batch (type, 0..3 entries with 0..4 values); options drawn: consistency (on the statement, ClusterConfig.Consistency or Session.SetConsistency), page size (set / default / 0), paging state, serial consistency (statement or ClusterConfig.SerialConsistency), timestamp (default now / explicit / disabled, ClusterConfig.DefaultTimestamp on or off), ClusterConfig.CQLVersion (STARTUP), tracing, custom payload (v4+), NoSkipMetadata; in a quarter of the cases the same Query / Batch object is executed twice; every frame the node received is decoded by lib/cqlspec and compared with what was asked; non-trivial = >= 2 options or a null/unset/named value; distinct by the case",
 		Draw: func(t *rapid.T) interface{} {
 			c := &vxC03SessCase{Proto: rapid.IntRange(1, 5).Draw(t, "proto"), Snappy: rapid.Bool().Draw(t, "snappy"), Keyspace: rapid.Bool().Draw(t, "ks"),
 				Kind: rapid.SampledFrom([]string{"query", "prepared", "prepared", "batch"}).Draw(t, "kind"),
@@ -829,6 +830,7 @@ func TestVxC03Session(t *testing.T) {
 			c.CfgCQL = rapid.SampledFrom([]string{"", "", "3.4.4", "3.0.0", "4.0.0-beta"}).Draw(t, "cfg_cql")
 			c.ConsVia = rapid.SampledFrom([]int{0, 0, 1, 2}).Draw(t, "cons_via")
 			c.Twice = rapid.IntRange(0, 3).Draw(t, "twice") == 0
+			c.Layout = rapid.SampledFrom([]int{0, 0, 0, 1, 2, 3, 4}).Draw(t, "layout")
 			if c.Kind == "batch" && c.Proto < 2 {
 				c.Proto = 2
 			}
@@ -951,7 +953,18 @@ func TestVxC03Session(t *testing.T) {
 			tr := &vxTracer{}
 			stmtQ := "LIST q"
 			placeholders := func(n int) string {
-				return "SELECT a FROM t WHERE " + strings.TrimSuffix(strings.Repeat("c = ? AND ", n), " AND ")
+				conds := strings.TrimSuffix(strings.Repeat("c = ? AND ", n), " AND ")
+				switch c.Layout {
+				case 1:
+					return "SELECT\n    a\nFROM t\nWHERE " + conds
+				case 2:
+					return "SELECT\ta\tFROM\tt\tWHERE " + conds
+				case 3:
+					return "  \n\tselect a from t where " + conds
+				case 4:
+					return "Select a From t Where " + conds + "\n"
+				}
+				return "SELECT a FROM t WHERE " + conds
 			}
 			t0 := time.Now()
 			var execErr error
